@@ -68,6 +68,14 @@ Proof.
   - inversion H. apply Nat.eqb_refl.
 Qed.
 
+Lemma nodup_o_In : forall l seen x, In x l -> In x seen \/ In x (nodup_o l seen).
+Proof.
+  induction l as [|y l IH]; intros seen x H; simpl; [destruct H|].
+  destruct (mem_o y seen) eqn:M.
+  - destruct H as [<-|H]; [left; apply mem_o_In; exact M | apply IH; exact H].
+  - destruct H as [<-|H]; [right; left; reflexivity|].
+    destruct (IH (y :: seen) x H) as [[<-|K]|K]; [right; left; reflexivity | left; exact K | right; right; exact K].
+Qed.
 Lemma upd_same : forall A (f : oid -> A) o v, upd f o v o = v.
 Proof. intros. unfold upd. rewrite Nat.eqb_refl. reflexivity. Qed.
 Lemma upd_other : forall A (f : oid -> A) o v x, x <> o -> upd f o v x = f x.
@@ -202,6 +210,32 @@ Qed.
 Lemma link_obj_frameG : forall g k o, frameG g (link_obj g k o).
 Proof. intros g k o. destruct (link_obj_frame g k o) as (A & B & C & D & E & F). repeat split; auto. Qed.
 
+Lemma link_all_same_lk : forall l g k, same_lk g (link_all g k l).
+Proof.
+  induction l as [|o l IH]; intros g k; simpl; [apply same_lk_refl|].
+  eapply same_lk_trans; [apply link_obj_same_lk | apply IH].
+Qed.
+Lemma link_all_spec : forall l g k,
+  let g' := link_all g k l in
+  (forall k', coll g' k' = coll g k') /\ (forall k', clinked g' k' = clinked g k') /\
+  (forall k' x, plink g k' x = true -> plink g' k' x = true) /\
+  (forall o, In o l -> plink g' k o = true) /\
+  (forall c, c_univ (cellf g' c) = c_univ (cellf g c)).
+Proof.
+  induction l as [|o l IH]; intros g k; simpl.
+  - repeat split; auto; intros o [].
+  - destruct (link_obj_frame g k o) as (A & B & C & D & E & F).
+    destruct (IH (link_obj g k o) k) as (A' & B' & C' & D' & E'). repeat split; intros.
+    + rewrite A'. apply A.
+    + rewrite B'. apply B.
+    + apply C'. apply C. assumption.
+    + destruct H as [<-|H]; [apply C'; exact D | apply D'; exact H].
+    + rewrite E'. apply E.
+Qed.
+
+Lemma link_all_frameG : forall l g k, frameG g (link_all g k l).
+Proof. intros l g k. destruct (link_all_spec l g k) as (A & B & C & D & E). repeat split; auto. Qed.
+
 (* ================================================================ adding dividers to a cell *)
 Definition add_lst (isc : bool) (r : cellr) (o : oid) : cellr :=
   if isc then cr_lists r (c_surfs r) (c_comps r ++ [o]) else cr_lists r (c_surfs r ++ [o]) (c_comps r).
@@ -245,19 +279,39 @@ Proof.
       * inversion H; subst. split; [exact G1|]. split; [exact F1|]. intros _. exact I1.
 Qed.
 
-Lemma cell_add_all_spec : forall l g c isc g' b,
-  cell_add_all g c isc l = (g', b) ->
-  grows g g' /\ frameG g g' /\ (b = true -> incl l (lst isc (cellf g' c))).
+Lemma cell_new_spec : forall g c isc l nw,
+  cell_new g c isc l = Some nw -> forall x, In x l -> In x (lst isc (cellf g c)) \/ In x nw.
 Proof.
-  induction l as [|o l IH]; intros g c isc g' b H; simpl in H.
-  - inversion H; subst. split; [apply grows_refl|]. split; [apply frameG_refl|]. intros _ x [].
-  - destruct (cell_add g c isc o) as [g1 b1] eqn:E. apply cell_add_spec in E. destruct E as (G1 & F1 & I1).
-    destruct b1.
-    + apply IH in H. destruct H as (G2 & F2 & I2). split; [eapply grows_trans; eauto|].
-      split; [eapply frameG_trans; eauto|]. intros Hb x [<-|Hx].
-      * destruct (G2 c) as [_ Inc]. apply (Inc isc). apply I1. reflexivity.
-      * apply I2; assumption.
-    + inversion H; subst. split; [exact G1|]. split; [exact F1|]. discriminate.
+  intros g c isc l nw H x Hx. unfold cell_new in H.
+  destruct (clash _ _ _ _); [discriminate|]. inversion H; subst. clear H.
+  change (if isc then c_comps (cellf g c) else c_surfs (cellf g c)) with (lst isc (cellf g c)).
+  destruct (mem_o x (lst isc (cellf g c))) eqn:M; [left; apply mem_o_In; exact M|]. right.
+  match goal with |- In x (nodup_o ?f []) => destruct (nodup_o_In f [] x) as [[]|K]; [|exact K] end.
+  apply filter_In. split; [exact Hx|]. rewrite M. reflexivity.
+Qed.
+
+Lemma cell_extend_spec : forall g c isc nw,
+  let g' := cell_extend g c isc nw in
+  grows g g' /\ frameG g g' /\ incl nw (lst isc (cellf g' c)).
+Proof.
+  intros g c isc nw. unfold cell_extend. set (r := cellf g c).
+  set (r' := if isc then cr_lists r (c_surfs r) (c_comps r ++ nw) else cr_lists r (c_surfs r ++ nw) (c_comps r)).
+  assert (G1 : grows g (set_cell g c r')).
+  { intro x. destruct (Nat.eq_dec x c) as [->|N].
+    - rewrite cellf_set_cell_same. fold r. split.
+      + unfold r'. destruct isc; reflexivity.
+      + intro i. unfold r'. destruct isc, i; simpl; try apply incl_refl; apply incl_appl; apply incl_refl.
+    - rewrite cellf_set_cell_other by exact N. split; [reflexivity | intro; apply incl_refl]. }
+  assert (F1 : frameG g (set_cell g c r')).
+  { apply set_cell_frameG. fold r. unfold r'. destruct isc; reflexivity. }
+  assert (I1 : incl nw (lst isc (cellf (set_cell g c r') c))).
+  { rewrite cellf_set_cell_same. unfold r'. destruct isc; simpl; apply incl_appr; apply incl_refl. }
+  cbv zeta. destruct (c_lnk r).
+  - split; [|split].
+    + eapply grows_trans; [exact G1 | apply same_lk_grows, link_all_same_lk].
+    + eapply frameG_trans; [exact F1 | apply link_all_frameG].
+    + destruct (link_all_same_lk nw (set_cell g c r') (kind_of_isc isc) c) as [_ L]. rewrite L. exact I1.
+  - split; [exact G1|]. split; [exact F1 | exact I1].
 Qed.
 
 Lemma add_children_spec : forall g cp other g' b,
@@ -266,14 +320,22 @@ Lemma add_children_spec : forall g cp other g' b,
   (b = true -> forall c, cp = Some c -> forall isc, incl (leaves isc other) (lst isc (cellf g' c))).
 Proof.
   intros g cp other g' b H. unfold add_children in H. destruct cp as [c|].
-  - destruct (cell_add_all g c true (leaves_cell other)) as [g1 b1] eqn:E1.
-    apply cell_add_all_spec in E1. destruct E1 as (G1 & F1 & I1). destruct b1.
-    + apply cell_add_all_spec in H. destruct H as (G2 & F2 & I2).
-      split; [eapply grows_trans; eauto|]. split; [eapply frameG_trans; eauto|].
-      intros Hb c' Hc isc. inversion Hc; subst c'. destruct isc.
-      * destruct (G2 c) as [_ Inc]. eapply incl_tran; [apply I1; reflexivity | apply (Inc true)].
-      * apply I2. exact Hb.
-    + inversion H; subst. split; [exact G1|]. split; [exact F1|]. discriminate.
+  - destruct (cell_new g c true (leaves_cell other)) as [nc|] eqn:E1;
+      [|inversion H; subst; split; [apply grows_refl|]; split; [apply frameG_refl | discriminate]].
+    destruct (cell_new g c false (leaves_surf other)) as [ns|] eqn:E2;
+      [|inversion H; subst; split; [apply grows_refl|]; split; [apply frameG_refl | discriminate]].
+    inversion H; subst. clear H.
+    destruct (cell_extend_spec g c true nc) as (G1 & F1 & I1).
+    destruct (cell_extend_spec (cell_extend g c true nc) c false ns) as (G2 & F2 & I2).
+    split; [eapply grows_trans; eauto|]. split; [eapply frameG_trans; eauto|].
+    intros _ c' Hc isc x Hx. inversion Hc; subst c'. destruct isc.
+    + destruct (G2 c) as [_ Inc2]. apply (Inc2 true).
+      destruct (cell_new_spec _ _ _ _ _ E1 x Hx) as [K|K].
+      * destruct (G1 c) as [_ Inc1]. apply (Inc1 true). exact K.
+      * apply I1. exact K.
+    + destruct (cell_new_spec _ _ _ _ _ E2 x Hx) as [K|K].
+      * destruct (G2 c) as [_ Inc2]. apply (Inc2 false). destruct (G1 c) as [_ Inc1]. apply (Inc1 false). exact K.
+      * apply I2. exact K.
   - inversion H; subst. split; [apply grows_refl|]. split; [apply frameG_refl|]. intros _ c Hc. discriminate.
 Qed.
 
@@ -299,10 +361,10 @@ Lemma link_geometry_spec : forall g c t g' t' b,
   (b = true -> forall isc, incl (leaves isc t) (lst isc (cellf g' c))).
 Proof.
   intros g c t g' t' b H. unfold link_geometry in H.
-  destruct (add_children g (Some c) (set_cp t (Some c))) as [g1 ok] eqn:E. inversion H; subst.
+  destruct (add_children g (Some c) t) as [g1 ok] eqn:E. inversion H; subst.
   apply add_children_spec in E. destruct E as (G & F & I). split; [exact G|]. split; [exact F|]. split.
-  - intro isc. apply leaves_set_cp.
-  - intros Hb isc. rewrite <- (leaves_set_cp isc t (Some c)). apply (I Hb c eq_refl).
+  - intro isc. destruct b; [apply leaves_set_cp | reflexivity].
+  - intros Hb isc. apply (I Hb c eq_refl).
 Qed.
 
 (* ================================================================ geometry trees *)
@@ -441,30 +503,19 @@ Proof.
   destruct (Bool.eqb b isc) eqn:Eb; simpl negb; cbv iota; [|intros _ _; exact L].
   apply Bool.eqb_prop in Eb. subst b.
   destruct cp as [c'|]; [|intros _ Hl; simpl in Hl; discriminate].
-  set (t1 := replace_at t p (Leaf isc (DObj d) (Some c'))).
-  set (g1 := set_cell g c (cr_geom (cellf g c) (Some t1))).
-  destruct (cell_add g1 c' isc d) as [g2 b] eqn:E. apply cell_add_spec in E. destruct E as (G & F & I).
+  destruct (cell_add g c' isc d) as [g2 b] eqn:E. apply cell_add_spec in E. destruct E as (G & F & I).
   destruct b; [|simpl; discriminate]. simpl. intros _ Hl. apply Nat.eqb_eq in Hl. subst c'.
-  intro x. destruct (Nat.eq_dec x c) as [->|N].
-  - intros h Hh isc'. destruct (G c) as [Eg2 Inc]. rewrite Eg2 in Hh. unfold g1 in Hh.
-    rewrite cellf_set_cell_same in Hh. simpl in Hh. inversion Hh; subst h.
-    eapply incl_tran; [apply replace_at_leaves|]. apply incl_app.
-    + eapply incl_tran; [apply (L c t Eg isc')|]. eapply incl_tran; [|apply Inc].
-      unfold g1. rewrite cellf_set_cell_same. destruct isc'; apply incl_refl.
-    + simpl. destruct (Bool.eqb isc isc') eqn:Eb; [|intros y []].
-      apply Bool.eqb_prop in Eb. subst isc'. intros y [<-|[]]. apply I. reflexivity.
-  - eapply cell_ok_grows; [exact G|]. unfold g1. rewrite cellf_set_cell_other by exact N. apply L.
+  apply set_geom_cell_ok; [eapply LinksAll_grows; eauto|]. intro isc'.
+  eapply incl_tran; [apply replace_at_leaves|]. apply incl_app.
+  - destruct (G c) as [_ Inc]. eapply incl_tran; [apply (L c t Eg isc') | apply Inc].
+  - simpl. destruct (Bool.eqb isc isc') eqn:Eb; [|intros y []].
+    apply Bool.eqb_prop in Eb. subst isc'. intros y [<-|[]]. apply I. reflexivity.
 Qed.
 
 (* operations that do not touch geometry or lists *)
 Lemma LinksAll_same_lk : forall g g', same_lk g g' -> LinksAll g -> LinksAll g'.
 Proof. intros g g' H. apply LinksAll_grows. apply same_lk_grows. exact H. Qed.
 
-Lemma link_all_same_lk : forall l g k, same_lk g (link_all g k l).
-Proof.
-  induction l as [|o l IH]; intros g k; simpl; [apply same_lk_refl|].
-  eapply same_lk_trans; [apply link_obj_same_lk | apply IH].
-Qed.
 Lemma link_if_same_lk : forall g k l, same_lk g (link_if g k l).
 Proof. intros g k l. unfold link_if. destruct (clinked g k); [apply link_all_same_lk | apply same_lk_refl]. Qed.
 
@@ -774,10 +825,9 @@ Qed.
 Lemma mt_up_core : forall g x, same_core g (fst (mt_up g x)).
 Proof. intros g x. unfold mt_up. destruct (last_mat _ _ _ _); [repeat split; reflexivity | apply same_core_refl]. Qed.
 
-Lemma data_loop_core : forall fuel g i, same_core g (fst (data_loop fuel g i)).
+Lemma data_loop_core : forall snap g, same_core g (fst (data_loop g snap)).
 Proof.
-  induction fuel as [|f IH]; intros g i; simpl; [apply same_core_refl|].
-  destruct (nth_error (dins g) i) as [it|]; [|apply same_core_refl].
+  induction snap as [|it snap IH]; intro g; simpl; [apply same_core_refl|].
   assert (H : same_core g (fst (match it with DMat m => mat_up g m (dins g) | DMT x => mt_up g x | _ => (g, ROk) end))).
   { destruct it; try apply same_core_refl; [apply mat_up_core | apply mt_up_core]. }
   destruct (match it with DMat m => mat_up g m (dins g) | DMT x => mt_up g x | _ => (g, ROk) end) as [g1 r].
@@ -822,7 +872,7 @@ Proof.
   destruct (fill_push g4 (coll g4 KCell)) as [g5 r5]. simpl in Q5. destruct r5; [|discriminate].
   pose proof (surfs_up_core (coll g5 KSurf) g5) as Q6.
   destruct (surfs_up g5 (coll g5 KSurf)) as [g6 r6]. simpl in Q6. destruct r6; [|discriminate].
-  pose proof (data_loop_core (S (List.length (dins g6))) g6 0) as Q7. rewrite H in Q7. simpl in Q7.
+  pose proof (data_loop_core (dins g6) g6) as Q7. rewrite H in Q7. simpl in Q7.
   assert (Q37 : quiet g3 g).
   { eapply quiet_trans; [exact Q4|]. eapply quiet_trans; [exact Q5|].
     eapply quiet_trans; apply same_core_quiet; eassumption. }
@@ -859,27 +909,6 @@ Proof.
 Qed.
 
 (* ================================================================ members stay linked; cells stay in a universe *)
-Lemma link_all_spec : forall l g k,
-  let g' := link_all g k l in
-  (forall k', coll g' k' = coll g k') /\ (forall k', clinked g' k' = clinked g k') /\
-  (forall k' x, plink g k' x = true -> plink g' k' x = true) /\
-  (forall o, In o l -> plink g' k o = true) /\
-  (forall c, c_univ (cellf g' c) = c_univ (cellf g c)).
-Proof.
-  induction l as [|o l IH]; intros g k; simpl.
-  - repeat split; auto; intros o [].
-  - destruct (link_obj_frame g k o) as (A & B & C & D & E & F).
-    destruct (IH (link_obj g k o) k) as (A' & B' & C' & D' & E'). repeat split; intros.
-    + rewrite A'. apply A.
-    + rewrite B'. apply B.
-    + apply C'. apply C. assumption.
-    + destruct H as [<-|H]; [apply C'; exact D | apply D'; exact H].
-    + rewrite E'. apply E.
-Qed.
-
-Lemma link_all_frameG : forall l g k, frameG g (link_all g k l).
-Proof. intros l g k. destruct (link_all_spec l g k) as (A & B & C & D & E). repeat split; auto. Qed.
-
 Lemma geometry_ops_frameG : forall g o,
   match o with
   | SetGeom _ _ | IopSet _ _ _ | IopIn _ _ _ _ | IopChild _ _ _ _ _ | SetDiv _ _ _ _
@@ -917,11 +946,9 @@ Proof.
   - unfold set_div. destruct (c_geom (cellf g c)) as [t|]; [|apply frameG_refl].
     destruct (node_at t p) as [[b dv cp|l cp|o l r cp]|]; try apply frameG_refl.
     destruct (negb (Bool.eqb b isc)); [apply frameG_refl|].
-    assert (F0 : frameG g (set_cell g c (cr_geom (cellf g c) (Some (replace_at t p (Leaf b (DObj d) cp))))))
-      by (apply set_cell_frameG; reflexivity).
-    destruct cp as [c'|]; [|exact F0].
-    destruct (cell_add _ c' isc d) as [g2 b2] eqn:E. apply cell_add_spec in E. destruct E as (_ & F & _).
-    destruct b2; simpl; eapply frameG_trans; eauto.
+    destruct cp as [c'|]; [|apply set_cell_frameG; reflexivity].
+    destruct (cell_add g c' isc d) as [g2 b2] eqn:E. apply cell_add_spec in E. destruct E as (_ & F & _).
+    destruct b2; simpl; [|exact F]. eapply frameG_trans; [exact F | apply set_cell_frameG; reflexivity].
   - apply set_cell_frameG. reflexivity.
   - apply set_cell_frameG. reflexivity.
   - apply set_cell_frameG. reflexivity.
@@ -1153,14 +1180,6 @@ Proof.
 Qed.
 
 (* ================================================================ add_cell_children_to_problem *)
-Lemma nodup_o_In : forall l seen x, In x l -> In x seen \/ In x (nodup_o l seen).
-Proof.
-  induction l as [|y l IH]; intros seen x H; simpl; [destruct H|].
-  destruct (mem_o y seen) eqn:M.
-  - destruct H as [<-|H]; [left; apply mem_o_In; exact M | apply IH; exact H].
-  - destruct H as [<-|H]; [right; left; reflexivity|].
-    destruct (IH (y :: seen) x H) as [[<-|K]|K]; [right; left; reflexivity | left; exact K | right; right; exact K].
-Qed.
 Lemma insert_by_In : forall key o l x, In x (insert_by key o l) <-> x = o \/ In x l.
 Proof.
   intros key o l x. induction l as [|y l IH]; simpl; [intuition|].
